@@ -599,6 +599,12 @@ with became_unnecessary (fuel : nat) (n : nid) : M unit :=
     if in_rch x then rch_remove n else ret tt
   end.
 
+(* remove_child (node.rs:1296, 1810): the edge is taken away, then the child is asked whether anything
+   still needs it *)
+Definition remove_child_edge (fuel : nat) (child : nid) (ci : Z) (parent : nid) : M unit :=
+  remove_parent child ci parent ;;;
+  check_if_unnecessary fuel child.
+
 (* invalidate_node (node.rs:857), invalidate_nodes_created_on_rhs (node.rs:1588) *)
 Fixpoint invalidate_node (fuel : nat) (n : nid) : M unit :=
   match fuel with
@@ -1094,8 +1100,7 @@ Definition expert_remove_dependency (fuel : nat) (n : nid) (eid : nat) : M unit 
           x <- get_node n ;;
           (if is_necessary x then
              (* expert_remove_child (node.rs:1296) *)
-             remove_parent (ed_child ed) last_index n ;;;
-             check_if_unnecessary fuel (ed_child ed) ;;;
+             remove_child_edge fuel (ed_child ed) last_index n ;;;
              x <- get_node n ;;
              (if in_rch x then ret tt else rch_insert n) ;;;
              c <- get_node (ed_child ed) ;;
